@@ -169,3 +169,59 @@ prop("C04", "cpumem_alloc", "every TLC-enumerated (node state x request) + rando
 prop("C05", "cpumem_alloc", "same cases; non-trivial = bound request", _A_CM)
 prop("C06", "cpumem_alloc", "same cases incl. sub-piece requests, max-share 1..3 with more fragment cores than max-share, share != base; non-trivial = bound request (CPU planning executed)", _A_CM)
 prop("C07", "cpumem_alloc", "same cases; capacity vs acceptance at cap-1, cap, cap+1; 3-node joint capacity queries for offered set and saturating total", _A_CM)
+
+
+# =========================================================================== CpuMem histories: C08 C15 C32 C33
+@family("cpumem_hist")
+def fam_cpumem_hist(tier, base):
+    inputs, trace = base + ".in.ndjson", base + ".trace.ndjson"
+    q = tier == "quick"
+    runs = [("MC_CpuMemHist", "MC_CpuMemHist_quick.cfg" if q else "MC_CpuMemHist_thorough.cfg", None),
+            ("MC_CpuMemFix", "MC_CpuMemFix_quick.cfg" if q else "MC_CpuMemFix_thorough.cfg", None),
+            ("MC_CpuMemHist", "MC_CpuMemHist_sim.cfg", "num=%d" % (100 if q else 3000))]
+    states = gen = n = 0
+    seen = set()
+    cfgs = []
+    with open(inputs, "w") as f:
+        for mod, cfg, sim in runs:
+            if sim:
+                r = verif.tlc(mod, cfg, simulate=sim, depth=11, workers=1, timeout=3000)
+                if r.error:
+                    raise Broken("simulation %s: %s" % (cfg, r.error))
+                m = __import__("re").search(r"The number of states generated: (\d+)", r.stdout)
+                gen += int(m.group(1)) if m else 0
+            else:
+                r = verif.model_check(mod, cfg, timeout=3000)
+                states += r.distinct
+                gen += r.generated
+            cfgs.append(cfg)
+            for s in r.tagged("INPUT"):
+                if s not in seen:
+                    seen.add(s)
+                    f.write(s + "\n")
+                    n += 1
+    del seen
+    b = verif.build_driver("cpumem")
+    nrand = 500 if q else 30000
+    verif.run_driver(b, "TestCpuMemHistory", env={"VERIF_INPUTS": inputs, "VERIF_TRACE": trace, "VERIF_RANDOM": nrand, "VERIF_PAR": 12}, timeout=7000)
+    os.remove(inputs)
+    viols, tr = verif.validate_trace("Trace_CpuMemHist", "Trace_CpuMemHist.cfg", trace, heap="16g")
+    lines = verif.read_lines(trace)
+    cnt = lambda s: sum(1 for ln in lines if s in ln)
+    nt = {"C08": cnt('"op":"rbAlloc"') + cnt('"op":"rbRealloc"') + cnt('"op":"realloc"'), "C15": cnt('"ev":"FixCase"'),
+          "C32": cnt('"class":"ok","diffs":0,"ev":"HistOp","k":0,"kind":"","live":[{') if False else cnt('"op":"remap"'),
+          "C33": cnt('"kind":"keep"') + cnt('"kind":"mem+"') + cnt('"kind":"mem-"')}
+    # samples: first history and first fix case
+    samples = {"*": verif.samples_from(lines[:40], 3), "C15": [json.loads(l) for l in lines if '"ev":"FixCase"' in l][:2]}
+    return dict(trace=trace, viols=viols, states=states, transitions=gen, configs=cfgs + ["Trace_CpuMemHist.cfg"], window=12,
+                traces={"*": cnt('"ev":"HistStart"'), "C15": cnt('"ev":"FixCase"')}, samples=samples, nontrivial=nt, exhaustive=False,
+                notes="%d TLC-generated inputs (exhaustive short histories after a first allocation, simulated histories of 10 ops, drift cases) + %d seeded random histories (4-15 ops) replayed through cobalt.Manager + cpumem; %d operations judged" % (n, nrand, cnt('"ev":"HistOp"')))
+
+
+_A_CH = ["real cobalt.Manager + cpumem plugin on embedded etcd, in supervised worker subprocesses",
+         "history nodes use share base 2 (half-core pieces) so that requests of 0.5/1.0/1.5/2.0 cores are exact; nodes: 4 plain cores, 2x2 and 3x3 NUMA, 3 cores with two shares each (max-share 2), 2 plain cores",
+         "release is SetNodeResourceUsage(Decr) with the workload's recorded resources (what calcium's remove/dissociate do)"]
+prop("C08", "cpumem_hist", "TLC-generated + random histories of alloc/rollback/realloc(7 delta kinds)/rollback/release/remap; after EVERY operation the plugin's recorded usage is read back and compared with the sum over live workloads; non-trivial = realloc or rollback operations", _A_CH)
+prop("C15", "cpumem_hist", "TLC-enumerated drift patterns (per-core usage, memory, NUMA memory) x recorded workload sets placed by the real allocator; repair then re-check; non-trivial = a drift case", _A_CH)
+prop("C32", "cpumem_hist", "remap after every prefix of the histories; result compared with the free-shared-core rule; non-trivial = a remap call", _A_CH)
+prop("C33", "cpumem_hist", "every keep-bind realloc with zero CPU delta (kinds keep, mem+, mem-) in the histories; non-trivial = such a realloc", _A_CH)
